@@ -5,6 +5,7 @@ mod diag;
 mod gap;
 mod gsd;
 mod las;
+mod net;
 mod phyrx;
 mod prm;
 mod station;
@@ -35,6 +36,7 @@ fn engine(name: &str) -> Option<(fn(&mut Vec<String>, u64, bool), Box<dyn Execut
         "prm" => Some((prm::gen, Box::new(prm::PrmExec::new()))),
         "gsd" => Some((gsd::gen, Box::new(Stateless(gsd::exec)))),
         "las" => Some((las::gen, Box::new(las::Exec::new()))),
+        "net" => Some((net::gen, Box::new(net::Exec::new()))),
         "phyrx" => Some((phyrx::gen, Box::new(phyrx::Exec::new()))),
         _ => None,
     }
